@@ -152,6 +152,15 @@ def run_instance(sc: Scenario, v, mode):
         prefix_t, cond_t, body_t, step_t = inst["loop"]
         L0 = runner.run(start, St([], W0, []), end)
         cuts = {l.data for l in L0 if l.kind == "cut"}
+        if len(cuts) == 0:
+            # the body never comes back to the loop head (it always leaves the loop): plain comparison with one unfolding
+            whole = ("seq", [prefix_t, ("loopbody", cond_t, body_t, step_t)]) if prefix_t else ("loopbody", cond_t, body_t, step_t)
+            spec0 = spec_leaves(whole, St([], W0, []), dom)
+            nq, mm = compare(L0, spec0, dom + runner.domain)
+            res["queries"] += nq
+            res["mismatches"] += mm
+            res["leaves"] = len(L0)
+            return res
         if len(cuts) != 1:
             res["mismatches"].append(f"loop construct: expected exactly one loop head, found {len(cuts)}")
             return res
@@ -370,6 +379,29 @@ def catalogue():
         for nc in (0, 1, 2):
             S.append(for_(nb, nc, False))
     S.append(for_(1, 1, True))
+
+    def loop_real_exit(kind, what, lead):
+        """the loop body is (or ends with) a real Break() / Continue(): its block is both the body's end and a pending exit"""
+        def build(env, v, mode):
+            c, cc = env.child("u")
+            parts, terms = [], []
+            if lead:
+                x, cx = env.child("n")
+                parts.append(x)
+                terms.append(C(cx))
+            parts.append(pt.Break() if what == "break" else pt.Continue())
+            terms.append((what,))
+            body = pt.Seq(*parts) if len(parts) > 1 else parts[0]
+            if kind == "while":
+                return {"expr": pt.While(c).Do(body), "loop": (None, C(cc), SEQ(*terms), ("skip",)), "expect_error": lambda v, m: v < 2}
+            i, ci = env.child("n")
+            s_, cs = env.child("n")
+            return {"expr": pt.For(i, c, s_).Do(body), "loop": (C(ci), C(cc), SEQ(*terms), C(cs))}
+        return Scenario(f"{kind}/body-ends-with-real-{what}/lead={lead}", "While" if kind == "while" else "For", build, versions=[2, 10], modes=["Application"])
+    for kind in ("while", "for"):
+        for what in ("break", "continue"):
+            for lead in (False, True):
+                S.append(loop_real_exit(kind, what, lead))
 
     # ---- Assert ---------------------------------------------------------------------------------------------
     def assert_(k, comment):
